@@ -1,10 +1,13 @@
 package c05
 
 import (
-	"github.com/ipfs/go-cid"
 	"bytes"
 	"fmt"
+	"strings"
 	"testing"
+
+	"github.com/ipfs/go-cid"
+	"github.com/multiformats/go-multihash"
 
 	"github.com/ipld/go-ipld-prime"
 	"github.com/ipld/go-ipld-prime/codec/dagcbor"
@@ -39,7 +42,7 @@ type sigCase struct {
 }
 
 func genCase(t *rapid.T) sigCase {
-	c := sigCase{Ad: adgen.GenAd(true).Draw(t, "ad"), Codec: rapid.SampledFrom([]string{"none", "dagjson", "dagcbor"}).Draw(t, "codec")}
+	c := sigCase{Ad: adgen.GenAd(true).Draw(t, "ad"), Codec: rapid.SampledFrom([]string{"none", "dagjson", "dagcbor", "dagjson-bytes", "dagcbor-bytes"}).Draw(t, "codec")}
 	a := c.Ad
 	kinds := []string{"none", "none", "prev", "entries", "provider", "metadata", "isrm", "env-key", "env-payload", "env-sig", "env-raw", "env-raw"}
 	if len(a.Addrs) > 0 {
@@ -121,6 +124,25 @@ func roundTrip(ad *schema.Advertisement, codec string) (*schema.Advertisement, e
 	}
 	var buf bytes.Buffer
 	var dec func(ipld.NodeAssembler, *bytes.Buffer) error
+	if strings.HasSuffix(codec, "-bytes") {
+		// the other decoding entry point: block bytes plus a CID that names the codec
+		code := uint64(cid.DagJSON)
+		if codec == "dagjson-bytes" {
+			err = dagjson.Encode(n, &buf)
+		} else {
+			err = dagcbor.Encode(n, &buf)
+			code = cid.DagCBOR
+		}
+		if err != nil {
+			return nil, fmt.Errorf("encode: %w", err)
+		}
+		mh, _ := multihash.Sum(buf.Bytes(), multihash.SHA2_256, -1)
+		got, err := schema.BytesToAdvertisement(cid.NewCidV1(code, mh), buf.Bytes())
+		if err != nil {
+			return nil, fmt.Errorf("BytesToAdvertisement: %w", err)
+		}
+		return &got, nil
+	}
 	if codec == "dagjson" {
 		err = dagjson.Encode(n, &buf)
 		dec = func(na ipld.NodeAssembler, b *bytes.Buffer) error { return dagjson.Decode(na, b) }
@@ -178,10 +200,11 @@ func runCase(c sigCase) pbt.Result {
 	ad := a.Build()
 	signer := keys[a.Signer]
 	var err error
+	fetcher := func(id string) (ic.PrivKey, error) { return nil, fmt.Errorf("no key for %s", id) }
 	if !a.HasEP {
 		err = ad.Sign(signer.Priv)
 	} else {
-		err = ad.SignWithExtendedProviders(signer.Priv, func(id string) (ic.PrivKey, error) {
+		fetcher = func(id string) (ic.PrivKey, error) {
 			for _, e := range a.EPs {
 				if adgen.IDString(keys[e.IDKey].ID, a.IDForm) == id {
 					if e.IDKey == a.Provider {
@@ -193,7 +216,8 @@ func runCase(c sigCase) pbt.Result {
 				}
 			}
 			return nil, fmt.Errorf("no key for %s", id)
-		})
+		}
+		err = ad.SignWithExtendedProviders(signer.Priv, fetcher)
 		if err != nil && len(a.EPs) > 0 && !mainPresent {
 			err = nil // documented refusal; the signatures are in place, verification must refuse too
 		}
@@ -359,6 +383,22 @@ func runCase(c sigCase) pbt.Result {
 			return merge(res, pbt.Failf("VerifySignature returned %s, signer is %s", id, signer.ID))
 		}
 		res.Classes = append(res.Classes, "verified")
+		if a.HasEP && m.Kind == "none" && c.Codec == "none" {
+			// the advertisement value is edited and signed again (a provider re-publishing with a new previous
+			// link): every signature must be made afresh over the current values
+			mh, _ := multihash.Sum([]byte(a.Entries+"resign"), multihash.SHA2_256, -1)
+			ad.PreviousID = cidlink.Link{Cid: cid.NewCidV1(cid.DagJSON, mh)}
+			if err := ad.SignWithExtendedProviders(signer.Priv, fetcher); err != nil {
+				if len(a.EPs) > 0 && !mainPresent {
+					return res
+				}
+				return merge(res, pbt.Failf("signing the edited advertisement again failed: %v", err))
+			}
+			if _, err := ad.VerifySignature(); err != nil {
+				return merge(res, pbt.Failf("an advertisement that verified, was given a new previous link and was signed again with SignWithExtendedProviders does not verify: %v\ncase: %+v", err, c))
+			}
+			res.Classes = append(res.Classes, "re-signed")
+		}
 		return res
 	}
 	if verr == nil {
@@ -375,7 +415,7 @@ func merge(base, f pbt.Result) pbt.Result {
 
 func TestC05_SignVerify(t *testing.T) {
 	pbt.Run(t, pbt.Config{Prop: "C05", Unit: "TestC05_SignVerify",
-		Rule: "advertisements over all combinations of previous link, entries/no-entries link, 0..5 addresses, metadata 0..1024 B, context ID 0..64 B, removal flag (without extended providers), 0..4 extended providers (main provider present or absent, override on/off), ad signed by the provider's or a separate publisher key of any key type; one mutation: each signed value changed to a different value, key / payload / signature bytes of the ad envelope or of an entry envelope edited through the protobuf, a raw bit flip of an envelope, an entry signed by a key that is not the named identity's, the main entry re-signed by another key; then none / DAG-JSON / DAG-CBOR round trip; oracle: VerifySignature returns the signer's peer ID iff nothing was altered, the main provider is listed when there are entries and every entry is signed by the named identity's key (ad signer for the main entry). Non-trivial: mutated or mis-keyed or main provider absent; distinct by case.",
+		Rule:        "advertisements over all combinations of previous link, entries/no-entries link, 0..5 addresses, metadata 0..1024 B, context ID 0..64 B, removal flag (without extended providers), 0..4 extended providers (main provider present or absent, override on/off), ad signed by the provider's or a separate publisher key of any key type; one mutation: each signed value changed to a different value, key / payload / signature bytes of the ad envelope or of an entry envelope edited through the protobuf, a raw bit flip of an envelope, an entry signed by a key that is not the named identity's, the main entry re-signed by another key; then none / DAG-JSON / DAG-CBOR round trip (through the node prototype or through BytesToAdvertisement); an unmutated advertisement with extended providers is also edited and signed again; oracle: VerifySignature returns the signer's peer ID iff nothing was altered, the main provider is listed when there are entries and every entry is signed by the named identity's key (ad signer for the main entry). Non-trivial: mutated or mis-keyed or main provider absent; distinct by case.",
 		Assumptions: []string{"a raw bit flip that leaves the four parsed envelope fields unchanged is not an alteration", "one value is changed at a time (undelimited concatenation, per the property's quantifier)"},
 	}, genCase, runCase)
 }
